@@ -205,10 +205,21 @@ def step (st : St) (opS obsS : String) : St × String := Id.run do
     return (st, bmStr st.bm)
   | _ => return (st, "bad-op")
 
+/-- `pinit ks ke` = the package entry point `Init`: `BootMemAllocator.init` followed by
+`BitmapAllocator.init` with both vmm seams succeeding -/
+def pinitPre (st : St) (opS : String) : St × String :=
+  match toks opS with
+  | ["pinit", ks, ke] =>
+    let b := bootInit (nat! ks) (nat! ke)
+    ({ st with boot := b, kFrames := (nat! ks / 4096, (nat! ke + 4095) / 4096 - 1), bootTaken := [],
+               held := [], inited := false, stats := st.stats.bump "pinit" }, "init 1 -1")
+  | _ => (st, opS)
+
 def processLine (st : St) (line : String) : IO St := do
   let line := if line.endsWith " |" then line ++ " " else line
   match line.splitOn " | " with
-  | [opS, obsS] =>
+  | [opS0, obsS] =>
+    let (st, opS) := pinitPre st opS0
     let (st', model) := step st opS obsS
     let mut st := { st' with fails := [] }
     for f in st'.fails do IO.println f
